@@ -8,7 +8,9 @@
 package c12
 
 import (
+	"runtime"
 	"sync"
+	"time"
 
 	"github.com/vmware/go-ipfix/pkg/collector"
 	"github.com/vmware/go-ipfix/pkg/entities"
@@ -63,28 +65,19 @@ func Check_TwoClients() {
 			got = append(got, m)
 		}
 	}()
-	var handlers sync.WaitGroup
-	handlers.Add(2)
-	for c := 0; c < 2; c++ {
-		conn := conns[c]
-		go func() {
-			defer handlers.Done()
-			cp.VerifHandleTCPClient(conn)
-		}()
-	}
-	var stopper sync.WaitGroup
-	if withStop {
-		stopper.Add(1)
-		go func() {
-			defer stopper.Done()
-			cp.Stop()
-		}()
-	}
-	handlers.Wait()
-	stopper.Wait()
+	// connections are accepted as the accept loop does it (wait-group accounting
+	// before the handler goroutine starts)
+	cp.VerifServeConn(conns[0])
+	cp.VerifServeConn(conns[1])
 	if !withStop {
-		cp.Stop()
+		// let both streams be consumed to their end first
+		for conns[0].Closed == 0 || conns[1].Closed == 0 {
+			runtime.Gosched()
+		}
 	}
+	// Stop returns (a hang is reported by the engine as a deadlock), with clients
+	// connected or mid-message when withStop
+	cp.Stop()
 	cp.CloseMsgChan()
 	consumer.Wait()
 
@@ -119,4 +112,86 @@ func Check_TwoClients() {
 	} else {
 		sx.Reach("all-delivered")
 	}
+}
+
+type udpAddr string
+
+func (a udpAddr) Network() string { return "udp" }
+func (a udpAddr) String() string  { return string(a) }
+
+// Check_TwoUDPClients: datagrams of two UDP clients dispatched as the read
+// loop does, a draining consumer, then Stop: every accepted datagram is
+// delivered at most once (here: exactly once, nothing is lost in memory), in
+// per-client order; the client table is empty and no goroutine of the process
+// remains after Stop.
+func Check_TwoUDPClients() {
+	cp, err := collector.VerifNewCollectingProcess(collector.CollectorInput{Protocol: "udp", Address: "x", TemplateTTL: 100}, &noClock{}, 0)
+	sx.Assert(err == nil, "init")
+	v := [2][2]uint32{{sx.U32("a1"), sx.U32("a2")}, {sx.U32("b1"), sx.U32("b2")}}
+	var got []*entities.Message
+	var consumer sync.WaitGroup
+	consumer.Add(1)
+	go func() {
+		defer consumer.Done()
+		for m := range cp.GetMsgChan() {
+			got = append(got, m)
+		}
+	}()
+	addrs := []udpAddr{"10.0.0.1:1000", "10.0.0.2:2000"}
+	// the read loop is one goroutine: datagrams are dispatched one after the other, interleaved between clients
+	order := sx.Choose("arrivalOrder", 3)
+	seq := [][2]int{{0, 0}, {1, 0}, {0, 1}, {1, 1}, {0, 2}, {1, 2}}
+	if order == 1 {
+		seq = [][2]int{{0, 0}, {0, 1}, {0, 2}, {1, 0}, {1, 1}, {1, 2}}
+	} else if order == 2 {
+		seq = [][2]int{{1, 0}, {0, 0}, {1, 1}, {1, 2}, {0, 1}, {0, 2}}
+	}
+	for _, s := range seq {
+		c, i := s[0], s[1]
+		dom := uint32(10 + c)
+		var pkt []byte
+		if i == 0 {
+			pkt = templateMsg(dom)
+		} else {
+			pkt = dataMsg(dom, uint32(i), v[c][i-1])
+		}
+		cp.VerifHandleUDPMessage(addrs[c], pkt)
+	}
+	// the client goroutines consume their queues
+	for len(got) < 6 {
+		runtime.Gosched()
+	}
+	cp.Stop()
+	cp.CloseMsgChan()
+	consumer.Wait()
+	sx.Assert(cp.GetNumConnToCollector() == 0, "client-table-not-empty-after-stop")
+	for c := 0; c < 2; c++ {
+		dom := uint32(10 + c)
+		n := 0
+		for _, m := range got {
+			if m.GetObsDomainID() != dom {
+				continue
+			}
+			if n == 0 {
+				sx.Assert(m.GetSet().GetSetType() == entities.Template, "order-within-client")
+			} else {
+				el := m.GetSet().GetRecords()[0].GetOrderedElementList()
+				sx.Assert(sx.And(m.GetSequenceNum() == uint32(n), el[0].GetUnsigned32Value() == v[c][n-1]), "datagram-duplicated-reordered-or-mixed-between-clients")
+			}
+			n++
+		}
+		sx.Assert(n == 3, "datagram-lost-or-duplicated")
+	}
+	sx.Assert(sx.LiveGoroutines() == 0, "goroutine-of-the-process-remains-after-stop")
+	sx.Reach("udp-delivered")
+}
+
+type noClock struct{}
+type noTimer struct{}
+
+func (noTimer) Stop() bool                 { return true }
+func (noTimer) Reset(d time.Duration) bool { return true }
+func (*noClock) Now() time.Time            { return time.Unix(1700000000, 0) }
+func (*noClock) AfterFunc(d time.Duration, f func()) collector.VerifTimer {
+	return noTimer{}
 }
